@@ -122,6 +122,36 @@ def gen_import_arms(man):
                     hit_shape = (len(cond) >= 3 and cond[-1] == "imported" and cond[-2] == "." and "!" not in cond
                                  and then_pushes and handled)
             hit_returns = contains(vm, bc, hc, ["return", "Ok", "("])
+    # 367eb72: `else if self.is_loading_module(module)` guards the cycle error; a non-loading leftover is removed
+    checks_loading = False
+    if hit >= 0 and stages["registry"] > hit:
+        ho, hc = body_after(vm, stages["registry"])
+        ei = find_seq(vm, ["else", "if", "self", ".", "is_loading_module", "(", "module", ")"], ho, hc)
+        rm = find_seq(vm, ["self", ".", "modules", ".", "remove", "(", "&", "path", ")"], ho, hc)
+        if ei >= 0 and rm > ei:
+            eo, ec = body_after(vm, ei)
+            checks_loading = (contains(vm, eo, ec, ["error!", "("]) and contains(vm, eo, ec, ["return", "Ok", "("])
+                              and rm > ec and stages["loader"] > rm)
+        elif ei < 0 and rm < 0:
+            checks_loading = False
+        else:
+            raise ValueError("registry-hit branch of start_import_impl has an unrecognised shape")
+    info["registry_hit_checks_loading"] = bool(checks_loading)
+    loading_shape = True
+    if checks_loading:
+        ol, cl = fn_body(vm, "is_loading_module")
+        loading_shape = (contains(vm, ol, cl, ["closure", ".", "module", "==", "module"])
+                         and contains(vm, ol, cl, ["closure", ".", "function", ".", "name", ".", "is_empty", "(", ")"])
+                         and contains(vm, ol, cl, [".", "frames"]) and contains(vm, ol, cl, [".", "any", "("]))
+    info["is_loading_is_body_frame_of_module"] = bool(loading_shape)
+    # 367eb72: built-ins only `if self.active_module == module`
+    guarded = False
+    if stages["builtins"] >= 0 and stages["call"] >= 0:
+        g = find_seq(vm, ["if", "self", ".", "active_module", "==", "module", "{"], stages["call"], c)
+        if g >= 0:
+            go, gc_ = body_after(vm, g)
+            guarded = go < stages["builtins"] < gc_
+    info["builtins_init_guarded"] = bool(guarded)
     info["cyc_fmt"], info["cyc_kind"] = cyc_fmt, cyc_kind
     info["hit_imported_pushes_else_error"] = bool(hit_shape and hit_returns)
     # loader error is thrown as is
@@ -267,6 +297,9 @@ def gen_import_arms(man):
     L.append("Definition gen_cyc_kind : string := %s." % coq_str(info["cyc_kind"]))
     L.append("Definition gen_hit_imported_pushes_else_error : bool := %s." % b(info["hit_imported_pushes_else_error"]))
     L.append("Definition gen_loader_error_thrown_as_is : bool := %s." % b(info["loader_error_thrown_as_is"]))
+    L.append("Definition gen_registry_hit_checks_loading : bool := %s." % b(info["registry_hit_checks_loading"]))
+    L.append("Definition gen_is_loading_is_body_frame_of_module : bool := %s." % b(info["is_loading_is_body_frame_of_module"]))
+    L.append("Definition gen_builtins_init_guarded : bool := %s." % b(info["builtins_init_guarded"]))
     L.append("Definition gen_comp_head : string := %s." % coq_str(info["comp_head"]))
     L.append("Definition gen_comp_kind : string := %s." % coq_str(info["comp_kind"]))
     L.append("Definition gen_comp_line_fmt : string := %s." % coq_str(info["comp_line_fmt"]))
